@@ -1,8 +1,9 @@
-\* exhaustive: all trees of <= 4 nodes, one composite class + components, four grid choices
-CONSTANTS MaxNodes = 4  CompTypes = {"A"}  Grids = {"none", "g1", "g2", "ax"}  MaxLevel = 9
+\* exhaustive (quick): all trees of <= 4 nodes; one composite class + components; grids none / cartesian / axial; 2 cells
+CONSTANTS MaxNodes = 4  CompTypes = {"A"}  Grids = {"none", "g1", "ax"}  NCells = 2  MaxLevel = 9
 INIT Init
 NEXT Next
 CONSTRAINT Bound
+CONSTRAINT Prune
 INVARIANT TypeOK
 INVARIANT RoundTrip
 INVARIANT FileIsSorted
